@@ -32,6 +32,8 @@ pub fn quiet<R>(f: impl FnOnce() -> R) -> R {
 /// Start positions for `*_with_pos`.
 pub fn pos_starts(n: usize) -> Vec<usize> {
     let mut v = vec![0, 1, 63, 64, 65, n / 2, n.saturating_sub(1), n, n + 1, n + 64, 511, 512, 513, UMAX - 1, UMAX];
+    v.extend(crate::sweep::wrap_args(n));
+    v.extend([(1usize << 58) + n.saturating_sub(1), (1 << 61) + n.saturating_sub(1)]);
     v.sort_unstable();
     v.dedup();
     v
